@@ -38,18 +38,6 @@ func TestMain(m *testing.M) {
 	ev.Main(m, "C09")
 }
 
-func init() {
-	// experiments only: C09_IGNORE_OPEN=all (or F14,F16 …) generates the
-	// excluded patterns too
-	if v := os.Getenv("C09_IGNORE_OPEN"); v != "" {
-		for k := range openFindings {
-			if v == "all" || v == "1" || strings.Contains(","+v+",", ","+k+",") {
-				openFindings[k] = false
-			}
-		}
-	}
-}
-
 const maxOps = 25
 
 // ---------- the state machine ----------
@@ -65,7 +53,6 @@ type machine struct {
 	classes      map[string]bool
 	derivedAt    int // number of attempted ops when a handle was first derived from immutable storage (-1: never)
 	wroteThrough bool
-	excluded     int
 }
 
 func (s *machine) model(t *rapid.T) *model {
@@ -103,11 +90,6 @@ func report(t ev.TB, test string, p *payload, v verdict) {
 // step evaluates the script grown by one operation.
 func (s *machine) step(t *rapid.T, o *op) {
 	m := s.model(t)
-	if id := m.exclusion(o); id != "" && openFindings[id] {
-		ev.Discard("known:" + id)
-		s.excluded++
-		t.Skip("open finding " + id)
-	}
 	p := &payload{Setup: s.setup, Ops: s.ops, Last: o}
 	v := evalCase(p)
 	report(t, s.test, p, v)
@@ -156,9 +138,6 @@ func (s *machine) finish() {
 		cls = append(cls, c)
 	}
 	sort.Strings(cls)
-	if s.excluded > 0 {
-		cls = append(cls, "sequence-with-excluded-op")
-	}
 	cls = append(cls, fmt.Sprintf("ops:%02d-%02d", len(s.attempted)/5*5, len(s.attempted)/5*5+4))
 	main, _, _ := s.setup.program()
 	sb, _ := json.Marshal(s.setup)
